@@ -130,6 +130,13 @@ def c02(scn, tables, c, hw_approx='default', rn=None):
         iso = ref_isolated(scn, lk['status'])
         for l in scn['links']:
             lid = l['id']
+            if scn.get('link_changes'):
+                # a control changed this pipe's roughness or minor-loss coefficient during the run: the law of the row uses the value of its time
+                chg = [ch for ch in scn['link_changes'] if ch['link'] == lid and ch['t'] <= t]
+                if chg:
+                    l = dict(l)
+                    for ch in sorted(chg, key=lambda x_: x_['t']):
+                        l[{'minor_loss': 'minor', 'roughness': 'rough'}[ch['attr']]] = ch['value']
             q = float(lk['flowrate'][lid])
             st = int(lk['status'][lid])
             ha = float(nd['head'][l['a']])
